@@ -5,6 +5,7 @@ package main
 // small entailment procedure over linear integer facts.
 
 import (
+	"os"
 	"strconv"
 	"fmt"
 	"go/constant"
@@ -1301,6 +1302,11 @@ func (fi *FuncInfo) valueFacts(vals []ssa.Value) []Fact {
 				}
 			} else if callee := call.Call.StaticCallee(); callee != nil {
 				switch {
+				case fi.ctx.isByteCompare(callee) || (fi.ctx.suffix != nil && callee.Pkg == fi.ctx.suffix && callee.Signature.Params().Len() == 2 && callee.Signature.Results().Len() == 1 &&
+					isByteSlice(callee.Signature.Params().At(0).Type()) && isByteSlice(callee.Signature.Params().At(1).Type()) && isIntType(callee.Signature.Results().At(0).Type())):
+					// common prefix / suffix helpers return at most min(len(p), len(q)) (trusted summary;
+					// attached to the value so that it is only used where the value is mentioned)
+					out = append(out, Fact{l.sub(fi.lenOf(args[0])), LE}, Fact{l.sub(fi.lenOf(args[1])), LE}, Fact{l.scale(-1), LE})
 				case fi.ctx.isMin(callee):
 					out = append(out, Fact{l.sub(fi.lin(args[0])), LE}, Fact{l.sub(fi.lin(args[1])), LE})
 				case fi.ctx.isDoz(callee):
@@ -2106,6 +2112,9 @@ func (fi *FuncInfo) proveFlat(goal Lin, conds []Cond, extra []Fact) bool {
 func (fi *FuncInfo) proveCheap(goal Lin, conds []Cond, extra []Fact) bool {
 	if fi.proveFlat(goal, conds, extra) {
 		return true
+	}
+	if os.Getenv("LZDBG") != "" {
+		fmt.Fprintf(os.Stderr, "FLAT-FAIL %s: %s ≤ 0 ; facts %s ; extra %s\n", fnName(fi.fn), goal, factStrings(fi.factsOf(conds)), factStrings(extra))
 	}
 	return fi.proveLE0(goal, conds, extra, map[string]bool{}, 0)
 }
